@@ -23,14 +23,18 @@
 (*   FlagBeforeGuard -- Invocable._start marks the scenario running before its       *)
 (*     preconditions are checked and a failing check does not clear the mark;        *)
 (*   ProxiesBeforeStops -- the finally clause drops the proxies BEFORE it stops the    *)
-(*     scenarios, so their reverts write run-time values into the scene's own objects. *)
+(*     scenarios, so their reverts write run-time values into the scene's own objects; *)
+(*   NamespaceKept -- endSimulation restores the names a behaviour module had but does  *)
+(*     not remove those created at run time (a seeded change, never in the code);       *)
+(*   RecordAfterEnd -- a file recorder keeps the sample offered after its recording     *)
+(*     ended, which then opens the series of the next simulation.                        *)
 (* With all FALSE every invariant holds; with any one TRUE TLC produces the           *)
 (* counterexample that the conformance harness then looks for in the real code.      *)
 EXTENDS Integers, Sequences, FiniteSets, TLC
 
 CONSTANTS Obj, Prop, DynProp, Scen, Beh, Parent,  \* Parent[s] = enclosing scenario (0 for the top one);
                                                     \* DynProp: dynamic properties (simulator-written, not overridable)
-          LedgerFirstOnly, FlagBeforeGuard, ProxiesBeforeStops, MaxOps
+          LedgerFirstOnly, FlagBeforeGuard, ProxiesBeforeStops, NamespaceKept, RecordAfterEnd, MaxOps
 
 VARIABLES pc,        \* "idle" | "setup" | "run" | "c1" (in finally) | "c2".."c4" (three cleanup steps) | "c5"
           sim,       \* a simulation is current (veneer.currentSimulation)
@@ -44,8 +48,10 @@ VARIABLES pc,        \* "idle" | "setup" | "run" | "c1" (in finally) | "c2".."c4
           cur,       \* <<o,p>> -> value read through the object (proxy if any)
           orig,      \* <<o,p>> -> value stored in the scene's own object
           nops,      \* bound on the number of run-time operations explored
-          outcome    \* "none" | "ok" | "fault"
-vars == <<pc, sim, proxied, running, flagged, brun, ledger, shadow, seen, cur, orig, nops, outcome>>
+          outcome,   \* "none" | "ok" | "fault"
+          ns,        \* module-level globals that exist only because a behaviour created them at run time
+          buf        \* samples waiting in the buffer of the compiled scenario's file recorder
+vars == <<pc, sim, proxied, running, flagged, brun, ledger, shadow, seen, cur, orig, nops, outcome, ns, buf>>
 
 Val == 0..2
 OP == Obj \X Prop
@@ -55,6 +61,7 @@ Top == CHOOSE s \in Scen : Parent[s] = 0
 Init == /\ pc = "idle" /\ sim = FALSE /\ proxied = {} /\ running = <<>> /\ flagged = {} /\ brun = {}
         /\ ledger = [s \in Scen |-> Empty] /\ shadow = [s \in Scen |-> Empty] /\ seen = [s \in Scen |-> {}]
         /\ cur = [x \in OP |-> 0] /\ orig = [x \in OP |-> 0] /\ nops = 0 /\ outcome = "none"
+        /\ ns = {} /\ buf = 0
 
 \* order of the three cleanup steps that follow Destroy
 Order == IF ProxiesBeforeStops THEN <<"unproxy", "behaviors", "scenarios">>
@@ -72,11 +79,11 @@ Write(x, v) == /\ cur' = [cur EXCEPT ![x] = v]
 
 Begin == /\ pc = "idle" /\ ~sim
          /\ sim' = TRUE /\ pc' = "setup" /\ outcome' = "none"
-         /\ UNCHANGED <<proxied, running, flagged, brun, ledger, shadow, seen, cur, orig, nops>>
+         /\ UNCHANGED <<proxied, running, flagged, brun, ledger, shadow, seen, cur, orig, nops, ns, buf>>
 
 Create(o) == /\ pc = "setup" /\ o \notin proxied
              /\ proxied' = proxied \cup {o}
-             /\ UNCHANGED <<pc, sim, running, flagged, brun, ledger, shadow, seen, cur, orig, nops, outcome>>
+             /\ UNCHANGED <<pc, sim, running, flagged, brun, ledger, shadow, seen, cur, orig, nops, outcome, ns, buf>>
 
 \* start of a scenario: preconditions checked; guardOK = FALSE is the failing check
 StartScenario(s, guardOK) ==
@@ -89,11 +96,11 @@ StartScenario(s, guardOK) ==
      ELSE /\ running' = running
           /\ flagged' = IF FlagBeforeGuard THEN flagged \cup {s} ELSE flagged
           /\ pc' = "c1" /\ outcome' = "fault"
-  /\ UNCHANGED <<sim, proxied, brun, ledger, shadow, seen, cur, orig, nops>>
+  /\ UNCHANGED <<sim, proxied, brun, ledger, shadow, seen, cur, orig, nops, ns, buf>>
 
 StartBehavior(b) == /\ pc = "run" /\ b \notin brun
                     /\ brun' = brun \cup {b}
-                    /\ UNCHANGED <<pc, sim, proxied, running, flagged, ledger, shadow, seen, cur, orig, nops, outcome>>
+                    /\ UNCHANGED <<pc, sim, proxied, running, flagged, ledger, shadow, seen, cur, orig, nops, outcome, ns, buf>>
 
 \* `override o with p v` executed by scenario s: the innermost running one (compose block), or a
 \* sub-scenario of it that is being prepared (its setup block runs before it is started)
@@ -112,13 +119,13 @@ Override(s, o, p, v) ==
                /\ seen' = seen
        /\ Write(x, v)
   /\ nops' = nops + 1
-  /\ UNCHANGED <<pc, sim, proxied, running, flagged, brun, outcome>>
+  /\ UNCHANGED <<pc, sim, proxied, running, flagged, brun, outcome, ns, buf>>
 
 \* a run-time write: the simulator updating a dynamic property, or user code assigning to any property
 SimWrite(o, p, v) ==
   /\ pc = "run" /\ nops < MaxOps
   /\ Write(<<o, p>>, v) /\ nops' = nops + 1
-  /\ UNCHANGED <<pc, sim, proxied, running, flagged, brun, ledger, shadow, seen, outcome>>
+  /\ UNCHANGED <<pc, sim, proxied, running, flagged, brun, ledger, shadow, seen, outcome, ns, buf>>
 
 \* stopping the innermost scenario: revert its ledger, clear its mark
 Revert(s) == [x \in OP |-> IF x \in DOMAIN ledger[s] THEN ledger[s][x] ELSE cur[x]]
@@ -133,29 +140,46 @@ StopInnermost ==
        /\ shadow' = [c \in Scen |-> IF c = s \/ Parent[c] = s THEN Empty ELSE shadow[c]]
        /\ running' = SubSeq(running, 1, Len(running) - 1)
        /\ flagged' = flagged \ {s}
-  /\ UNCHANGED <<pc, sim, proxied, brun, nops, outcome>>
+       \* when the top-level scenario stops its recorders end the recording: the series is written (or dropped,
+       \* for a discarded run) and the buffer emptied
+       /\ buf' = IF Len(running) = 1 THEN 0 ELSE buf
+  /\ UNCHANGED <<pc, sim, proxied, brun, nops, outcome, ns>>
 
 \* the fault disjunct: an exception or rejection at any point of a running simulation
 Fail == /\ pc \in {"setup", "run"} /\ sim
         /\ pc' = "c1" /\ outcome' = "fault"
-        /\ UNCHANGED <<sim, proxied, running, flagged, brun, ledger, shadow, seen, cur, orig, nops>>
+        /\ UNCHANGED <<sim, proxied, running, flagged, brun, ledger, shadow, seen, cur, orig, nops, ns, buf>>
 Finish == /\ pc = "run" /\ pc' = "c1" /\ outcome' = "ok"
-          /\ UNCHANGED <<sim, proxied, running, flagged, brun, ledger, shadow, seen, cur, orig, nops>>
+          /\ UNCHANGED <<sim, proxied, running, flagged, brun, ledger, shadow, seen, cur, orig, nops, ns, buf>>
 
 \* the finally clause of Simulation.__init__
 Destroy == /\ pc = "c1" /\ pc' = "c2"
-           /\ UNCHANGED <<sim, proxied, running, flagged, brun, ledger, shadow, seen, cur, orig, nops, outcome>>
+           /\ UNCHANGED <<sim, proxied, running, flagged, brun, ledger, shadow, seen, cur, orig, nops, outcome, ns, buf>>
 DisableProxies == /\ pc = StageOf("unproxy") /\ proxied' = {} /\ pc' = NextOf("unproxy")
                   /\ cur' = orig     \* reads now see the scene's own objects again
-                  /\ UNCHANGED <<sim, running, flagged, brun, ledger, shadow, seen, orig, nops, outcome>>
+                  /\ UNCHANGED <<sim, running, flagged, brun, ledger, shadow, seen, orig, nops, outcome, ns, buf>>
 StopBehaviors == /\ pc = StageOf("behaviors") /\ brun' = {} /\ pc' = NextOf("behaviors")
-                 /\ UNCHANGED <<sim, proxied, running, flagged, ledger, shadow, seen, cur, orig, nops, outcome>>
+                 /\ UNCHANGED <<sim, proxied, running, flagged, ledger, shadow, seen, cur, orig, nops, outcome, ns, buf>>
 ScenariosStopped == /\ pc = StageOf("scenarios") /\ running = <<>> /\ pc' = NextOf("scenarios")
-                    /\ UNCHANGED <<sim, proxied, running, flagged, brun, ledger, shadow, seen, cur, orig, nops, outcome>>
+                    /\ UNCHANGED <<sim, proxied, running, flagged, brun, ledger, shadow, seen, cur, orig, nops, outcome, ns, buf>>
 EndSimulation == /\ pc = "c5" /\ sim' = FALSE /\ pc' = "idle"
-                 /\ UNCHANGED <<proxied, running, flagged, brun, ledger, shadow, seen, cur, orig, nops, outcome>>
+                 \* the behaviours' module namespaces are put back exactly as they were
+                 /\ ns' = IF NamespaceKept THEN ns ELSE {}
+                 /\ UNCHANGED <<proxied, running, flagged, brun, ledger, shadow, seen, cur, orig, nops, outcome, buf>>
 
-Next == \/ Begin \/ Fail \/ Finish \/ StopInnermost
+\* a behaviour creates a module-level global that did not exist before the simulation
+CreateGlobal == /\ pc = "run" /\ nops < MaxOps /\ ns = {}
+                /\ ns' = {1} /\ nops' = nops + 1
+                /\ UNCHANGED <<pc, sim, proxied, running, flagged, brun, ledger, shadow, seen, cur, orig, outcome, buf>>
+\* the state of the current step is offered to the file recorder; it is kept only while the recording is on, i.e.
+\* while the top-level scenario runs (RecordAfterEnd: the code offers the state of the step in which the
+\* top-level scenario stops AFTER the recording has ended, and the recorder keeps it)
+RecordSample == /\ pc = "run" /\ nops < MaxOps /\ buf < 2
+                /\ (running # <<>> \/ (RecordAfterEnd /\ flagged = {} /\ outcome = "none"))
+                /\ buf' = buf + 1 /\ nops' = nops + 1
+                /\ UNCHANGED <<pc, sim, proxied, running, flagged, brun, ledger, shadow, seen, cur, orig, outcome, ns>>
+
+Next == \/ Begin \/ Fail \/ Finish \/ StopInnermost \/ CreateGlobal \/ RecordSample
         \/ \E o \in Obj : Create(o)
         \/ \E s \in Scen, g \in BOOLEAN : StartScenario(s, g)
         \/ \E b \in Beh : StartBehavior(b)
@@ -169,6 +193,7 @@ Quiescent == (pc = "idle") =>
    /\ ~sim /\ proxied = {} /\ running = <<>> /\ flagged = {} /\ brun = {}
    /\ ledger[Top] = Empty      \* (the top-level scenario object persists; sub-scenario objects are per-invocation)
    /\ orig = [x \in OP |-> 0]
+   /\ ns = {} /\ buf = 0     \* nothing of the run is left in the compiled scenario: no new global, no buffered sample
 \* the scene's own objects are never written, in any state of any run
 SceneUntouched == orig = [x \in OP |-> 0]
 \* when a scenario stops every property it overrode reads as before its first override
